@@ -474,6 +474,21 @@ func (s *Sorts) OtherDecls(query string) string {
 		so := s.unmangleSort(strings.TrimPrefix(tok, "unoid_"))
 		fmt.Fprintf(&b, "(declare-fun %s (Int) %s)\n", tok, so)
 	}
+	for _, tok := range tokenScan(query, "sprintf_") {
+		if seen[tok] {
+			continue
+		}
+		seen[tok] = true
+		sorts := []string{"String"}
+		for _, c := range strings.TrimPrefix(tok, "sprintf_") {
+			if c == 'I' {
+				sorts = append(sorts, "Int")
+			} else {
+				sorts = append(sorts, "String")
+			}
+		}
+		fmt.Fprintf(&b, "(declare-fun %s (%s) String)\n", tok, strings.Join(sorts, " "))
+	}
 	var ins []string
 	for n := range s.ifaceNames {
 		ins = append(ins, n)
